@@ -12,20 +12,47 @@ LIBS = ['-lmicrohttpd']
 WRAP = ['clock_gettime', '_ZSt18_Rb_tree_incrementPKSt18_Rb_tree_node_base',
         '_ZSt18_Rb_tree_incrementPSt18_Rb_tree_node_base']
 
+def _housekeeping_def(v):
+    """The definition line of OlaServer::K_HOUSEKEEPING_TIMEOUT_MS (it lives in OlaServer.cpp, the header
+    only declares it), re-qualified so that the constants program can compile it against the header."""
+    import re
+    txt = open(v.repo_path('olad/OlaServer.cpp')).read()
+    m = re.search(r'const\s+unsigned\s+int\s+OlaServer::K_HOUSEKEEPING_TIMEOUT_MS\s*=\s*([^;]+);', txt)
+    if not m:
+        return None
+    return 'const unsigned int ola::OlaServer::K_HOUSEKEEPING_TIMEOUT_MS = %s;' % m.group(1).strip()
+
 def gen_consts(v):
     import os
+    hk = _housekeeping_def(v)
+    if hk is None:
+        return 'OlaServer::K_HOUSEKEEPING_TIMEOUT_MS definition not found in olad/OlaServer.cpp'
     ents = [('TIMEOUT_US', 'ola::DmxSource::TIMEOUT_INTERVAL.InMilliSeconds() * 1000'),
             ('SOURCE_PRIORITY_MIN', 'ola::dmx::SOURCE_PRIORITY_MIN'),
             ('SOURCE_PRIORITY_DEFAULT', 'ola::dmx::SOURCE_PRIORITY_DEFAULT'),
             ('SOURCE_PRIORITY_MAX', 'ola::dmx::SOURCE_PRIORITY_MAX'),
-            ('DMX_UNIVERSE_SIZE', 'ola::DMX_UNIVERSE_SIZE')]
-    return v.gen_consts_cpp(ID, ['olad/DmxSource.h', 'ola/dmx/SourcePriorities.h', 'ola/Constants.h'],
-                            ents, os.path.join(v.VERIF, 'props', ID, 'coq', 'Gen.v'),
+            ('DMX_UNIVERSE_SIZE', 'ola::DMX_UNIVERSE_SIZE'),
+            ('HOUSEKEEPING_MS', 'ola::OlaServer::K_HOUSEKEEPING_TIMEOUT_MS'),
+            ('RPC_INITIAL_BUFFER', 'ola::rpc::RpcChannel::INITIAL_BUFFER_SIZE'),
+            ('RPC_MAX_BUFFER', 'ola::rpc::RpcChannel::MAX_BUFFER_SIZE')]
+    return v.gen_consts_cpp(ID, ['olad/DmxSource.h', 'ola/dmx/SourcePriorities.h', 'ola/Constants.h',
+                                 'olad/OlaServer.h', 'common/rpc/RpcChannel.h'],
+                            ents, os.path.join(v.VERIF, 'props', ID, 'coq', 'Gen.v'), prelude=hk,
                             extra_sources=['olad/plugin_api/DmxSource.cpp', 'common/utils/Clock.cpp'])
+
+def _housekeeping_us():
+    """generator cap: histories keep total virtual time below the (regenerated) housekeeping interval"""
+    import os, re
+    try:
+        txt = open(os.path.join(os.path.dirname(os.path.abspath(__file__)), 'coq', 'Gen.v')).read()
+        return int(re.search(r'HOUSEKEEPING_MS : N := (\d+)', txt).group(1)) * 1000
+    except Exception:
+        return 10000000
 
 SPEC_KEYS = ['obs', 'cnt', 'once', 'crash', 'sigpipe']
 
 
+TIME_CAP = _housekeeping_us() - 500000
 SIZES = [0, 1, 1, 2, 3, 3, 4, 512, 513, 600]
 API_PRIOS = [0, 1, 99, 100, 100, 101, 199, 200, 201, 255]
 RAW_PRIOS = ['n', 0, 100, 200, 201, 255, 256, 300, 456, 511, 2147483647]
@@ -111,7 +138,7 @@ def gen_one(rng, nops, sched):
                 closed.add(c)
         elif r < 0.70:
             dt = rng.choice(TICKS)
-            if elapsed + dt < 9500000:
+            if elapsed + dt < TIME_CAP:
                 elapsed += dt
                 ops.append('K,%d' % dt)
         elif r < 0.73:
@@ -120,7 +147,7 @@ def gen_one(rng, nops, sched):
             k = rng.random()
             if k < 0.12:
                 dt = rng.choice([1, 5, 1000, 2499999, 2500000])
-                if elapsed + dt < 9500000:
+                if elapsed + dt < TIME_CAP:
                     elapsed += dt
                     ops.append('J,%d' % dt)      # clock moves on inside a loop iteration
             elif k < 0.35:
@@ -229,6 +256,44 @@ def gen_scale(rng):
     ops += ['S,%d,1,100,0a0b' % c, '*', 'F,%d,1' % c, '*']
     return '%d %s' % (ncl, ' '.join(ops))
 
+def gen_pipeline_disconnect(rng):
+    """A client pipelines several requests and disconnects before the daemon has run: the daemon
+    handles the head of the channel, the first reply write fails, the rest of the channel is dropped
+    with the session; the other clients and the universes are not disturbed."""
+    ncl = rng.choice([2, 3, 3])
+    c = rng.randrange(ncl)
+    o = (c + 1) % ncl
+    u = rng.choice([1, 1, 2])
+    ops = ['G,%d,%d,1' % (o, u), '*']
+    if rng.random() < 0.5:
+        ops += ['S,%d,%d,100,0102' % (o, u), '*']
+    if rng.random() < 0.4:
+        ops += ['G,%d,%d,1' % (c, u), '*']
+    for _ in range(rng.choice([2, 3, 4, 6])):
+        k = rng.random()
+        if k < 0.35:
+            ops.append('S,%d,%d,%d,%s' % (c, u, rng.choice([0, 100, 150, 200]), frame(rng)))
+        elif k < 0.55:
+            ops.append('T,%d,%d,%d,%s' % (c, u, rng.choice([100, 150]), frame(rng)))
+        elif k < 0.65:
+            ops.append('F,%d,%d' % (c, u))
+        elif k < 0.75:
+            ops.append('G,%d,%d,%d' % (c, rng.choice([u, 3]), rng.choice([0, 1])))
+        elif k < 0.85:
+            ops.append('N,%d,%d,%s' % (c, u, rng.choice(NAMES)))
+        elif k < 0.92:
+            ops.append('M,%d,%d,%d' % (c, u, rng.choice([0, 1])))
+        else:
+            ops.append('X,%d,%d,%d' % (c, rng.randrange(11), u))
+    ops.append('D,%d' % c)
+    # the daemon now runs: step by step, mixed with the other client's traffic
+    for _ in range(rng.choice([1, 2, 3, 5])):
+        ops.append(rng.choice(['>,%d' % c, '},%d' % c, '>,%d' % c]))
+        if rng.random() < 0.4:
+            ops += ['S,%d,%d,100,%s' % (o, u, frame(rng)), '>,%d' % o]
+    ops += ['*', 'F,%d,%d' % (o, u), 'I,%d,%d' % (o, u), '*', 'H', 'F,%d,%d' % (o, u), '*']
+    return '%d %s' % (ncl, ' '.join(ops))
+
 def gen_cases(rng, tier):
     n = 900 if tier == 'quick' else 30000
     for i in range(n):
@@ -241,6 +306,8 @@ def gen_cases(rng, tier):
         yield gen_same_iteration(rng)
     for i in range(n // 30):
         yield gen_scale(rng)
+    for i in range(n // 8):
+        yield gen_pipeline_disconnect(rng)
 
 def nontrivial(payload, md):
     obs = md.get('obs', '')
@@ -249,7 +316,7 @@ def nontrivial(payload, md):
 RULE = ('histories of 6-36 client-library calls by 2-4 real OlaClient instances (in a fifth of the histories one of them a real StreamingClient over loopback TCP) against one real OlaServer '
         '(acked/streamed/raw-protobuf sends with frame sizes {0,1,2,3,4,512,513,600} and priorities '
         '{0,1,99,100,101,199,200,201,255 | absent,256,300,456,511,2^31-1}, fetch, register/unregister, merge mode, '
-        'name (up to 15000 characters), info, patch and ten further request kinds as opaque completions (plugin list/description/state, device info, candidate ports, ConfigureDevice with payloads up to 30000 bytes, port priority, cached discovery, universe list with up to 400 universes, source UID), disconnects anywhere, half of the histories drawing frames/priorities from a 2-3 entry palette so senders repeat identical frames, plus dedicated repeat-identical-frame histories (acked and streamed, LTP/HTP, with a higher-priority sender going quiet across the 2.5 s source timeout), histories in which frames of two senders are dispatched in the same event-loop iteration while the clock moves on (ops J/}: wake-up time vs fresh clock), clock ticks {0,1,1000,2499999,2500000,2500001 us}, housekeeping); '
+        'name (up to 15000 characters), info, patch and ten further request kinds as opaque completions (plugin list/description/state, device info, candidate ports, ConfigureDevice with payloads up to 30000 bytes, port priority, cached discovery, universe list with up to 400 universes, source UID), disconnects anywhere, half of the histories drawing frames/priorities from a 2-3 entry palette so senders repeat identical frames, plus dedicated repeat-identical-frame histories (acked and streamed, LTP/HTP, with a higher-priority sender going quiet across the 2.5 s source timeout), histories in which a client pipelines several requests and disconnects before the daemon runs, histories in which frames of two senders are dispatched in the same event-loop iteration while the clock moves on (ops J/}: wake-up time vs fresh clock), clock ticks {0,1,1000,2499999,2500000,2500001 us}, housekeeping); '
         '1/3 drained after every call, 2/3 with an explicit random schedule of per-channel deliveries; compared after '
         'every step; non-trivial = at least one successful completion and one DMX push delivered to a registered '
         'client; distinct = distinct model output line')
@@ -283,9 +350,10 @@ LEVEL_TEXT = ('Coq theorems over an executable model of N client libraries + per
               'frame of a single sender, every open registered sink gets exactly one push with that '
               'universe/priority/frame and a fetch returns it; a processed disconnect removes the client everywhere, '
               'leaves everybody else unchanged, is permanent, and nothing the gone client does afterwards changes '
-              'anything but request numbering.  Not proved: the literal projection form of non-interference (needs '
-              'request-id renaming); fidelity is stated for the service-method step (composition with the poller '
-              'step is by c04_fifo_partial).')
+              'anything but request numbering; a connected but silent client is in no live group once its last applied frame is 2.5 s old, and two housekeeping runs without a send evict it as a source while its sink registration stays; end to end (API call, poller step, service method, deferred clean-up, fetch call, poller step, client completion) a single sender\'s streamed frame is exactly what another client\'s FetchDMX callback receives.  Not proved: the literal projection form of non-interference (needs '
+              'request-id renaming); the end-to-end composition is proved for the single-sender streamed case only (multi-source fidelity '
+              'is stated for the service-method step); that a universe with registered sinks survives garbage '
+              'collection needs unique universe ids, which is not a proved invariant.')
 LEVEL_NOTE = ('Trusted: Coq kernel, extraction (ExtrOcamlBasic), OCaml/C++ glue (the glue contains the drain loop), '
               'generator coverage of the correspondence; model = code is validated by differential testing of a real '
               'in-process OlaServer and real OlaClient objects under ASan/UBSan, not proved; protobuf, pipes, '
